@@ -19,4 +19,5 @@ INVARIANT CacheCoherent
 PROPERTY RefuseDuplicates
 PROPERTY ForFileExactlyOne
 PROPERTY CachedOrFresh
+PROPERTY FailedRequestKeepsCache
 CHECK_DEADLOCK FALSE
